@@ -239,6 +239,106 @@ fn held_value_case(index: u64, st: &mut Stats) {
     }
 }
 
+/// Expression-result family (C01): the value of an if / case / and / or expression is combined with the
+/// result of a recursive call of the same function; each activation's expression value depends on its
+/// argument, so the sum has a closed form. 12 expression shapes x value before / after the call.
+const RESULT_SLOTS: u64 = 12 * 2;
+
+fn expression_result_case(index: u64, st: &mut Stats) {
+    let form = (index % 12) as usize;
+    let call_first = (index / 12) % 2 == 1;
+    // every shape evaluates to n * 10 for n >= 1
+    let shapes: [(&str, &str); 12] = [
+        ("if-expression, then-arm valued", "(if n > 0 do\n    n * 10\nelse do\n    0\nend)"),
+        ("if-expression, else-arm valued", "(if n < 0 do\n    0\nelse do\n    n * 10\nend)"),
+        ("if-expression, then-arm leaves", "(if n < 0 do\n    ret 0\nelse do\n    n * 10\nend)"),
+        ("if-expression, else-arm leaves", "(if n > 0 do\n    n * 10\nelse do\n    ret 0\nend)"),
+        ("elif chain, middle arm valued", "(if n < 0 do\n    ret 0\nelif n > 0 do\n    n * 10\nelse do\n    ret 0\nend)"),
+        ("case-expression, pattern arm valued", "(case pick(n) do\n    A q -> q * 10 end\n    B -> 0 end\nend)"),
+        ("case-expression, only the else arm valued", "(case other(n) do\n    A q -> ret 0 end\n    else n * 10 end\nend)"),
+        ("case-expression, else arm leaves", "(case pick(n) do\n    A q -> q * 10 end\n    else ret 0 end\nend)"),
+        ("and/or deciding an if-expression", "(if n > 0 and (n > 100 or true) do\n    n * 10\nelse do\n    0\nend)"),
+        ("nested if inside a case arm", "(case pick(n) do\n    A q ->\n        if q > 0 do\n            q * 10\n        else do\n            ret 0\n        end\n    end\n    B -> 0 end\nend)"),
+        ("block value", "(if true do\n    k :: n * 5\n    k + k\nelse do\n    0\nend)"),
+        ("call result held", "ten(n)"),
+    ];
+    let (name, e) = shapes[form];
+    let sum = if call_first { format!("total(n - 1) + {}", e) } else { format!("{} + total(n - 1)", e) };
+    let ind = |t: &str, n: usize| t.lines().map(|l| format!("{}{}\n", " ".repeat(n), l)).collect::<String>();
+    let text = format!(
+        "E :: enum\n    A int,\n    B,\nend\n\npick :: fn n: int -> E do\n    E.A n\nend\n\nother :: fn n: int -> E do\n    E.B\nend\n\nten :: fn n: int -> int do\n    n * 10\nend\n\ntotal :: fn n: int -> int do\n    if n <= 0 do\n        ret 0\n    end\n{}end\n\nstart :: fn do\n    print(total(3))\n    print(total(1))\nend\n",
+        ind(&sum, 4)
+    );
+    let expect = vec!["60".to_string(), "10".to_string()];
+    st.count("expression_result_programs");
+    let what = format!("{} {} the recursive call", name, if call_first { "after" } else { "before" });
+    let viol = |sig: &str, obs: String| Violation { signature: sig.to_string(), hazard: None, case: index, detail: J::obj().with("what", J::s(what.clone())).with("program", J::s(text.clone())).with("expected_prints", J::Arr(expect.iter().map(|e| J::s(e.clone())).collect())).with("observed", J::s(obs)) };
+    match sy::compile_files(&sy::one_file(&text), "main.sy", &sy::CompileOpts { fuel: Some(crate::rel::CAMPAIGN_FUEL), ..Default::default() }) {
+        sy::Compiled::Ok(b) => match lua::run_simple(&String::from_utf8_lossy(&b)) {
+            lua::Simple::Prints(p) if p == expect => {
+                st.count("expression_result_programs_as_expected");
+                st.nontrivial(hash64(text.as_bytes()));
+            }
+            lua::Simple::Prints(p) => st.violation(viol("trace:expression-result-across-recursion", format!("{:?}", p))),
+            other => st.violation(viol("trace:expression-result-run-failed", format!("{:?}", other).chars().take(300).collect())),
+        },
+        other => st.violation(viol("trace:expression-result-template-rejected", other.brief())),
+    }
+}
+
+/// Assignment-target family (C10): `x = <expression that calls a function reading x>`: the callee (also a
+/// recursive activation of the assigning function) must see the OLD value of x - the target is written
+/// only after the right-hand side has been evaluated. 8 right-hand-side forms x global / captured local.
+const TARGET_SLOTS: u64 = 8 * 2;
+
+fn assign_target_case(index: u64, st: &mut Stats) {
+    let form = (index % 8) as usize;
+    let captured = (index / 8) % 2 == 1;
+    // (type, initial value, statement, expected final x)
+    let (ty, init, stmt, expect_x) = match form {
+        0 => ("bool", "true", "x = p and reader()", "true"),
+        1 => ("bool", "false", "x = q or reader()", "false"),
+        2 => ("int", "5", "x = reader() + 1", "6"),
+        3 => ("int", "5", "x = if reader() > 0 do\n    reader() * 2\nelse do\n    0\nend", "10"),
+        4 => ("int", "5", "x = (reader(), 1)[0] + 10", "15"),
+        5 => ("int", "5", "x = -reader()", "-5"),
+        6 => ("int", "5", "x += reader()", "10"),
+        _ => ("bool", "true", "x = visit(2)", "true"),
+    };
+    let names = ["p and reader()", "q or reader()", "reader() + 1", "if-expression calling reader()", "tuple index of (reader(), 1)", "-reader()", "+= reader()", "recursive `x = n < 10 and visit(n - 1)`"];
+    let ind = |t: &str, n: usize| t.lines().map(|l| format!("{}{}\n", " ".repeat(n), l)).collect::<String>();
+    let fns = format!(
+        "reader :: fn -> {ty} do\n    x\nend\n\nvisit :: fn n: int -> bool do\n    if n <= 0 do\n        ret flag\n    end\n    flag = n < 10 and visit(n - 1)\n    flag\nend\n",
+        ty = ty
+    );
+    let text = if captured {
+        format!(
+            "start :: fn do\n    x: {ty} = {init}\n    flag := true\n    p := true\n    q := false\n{fns}{stmt}    print(x)\n    print(flag)\nend\n",
+            ty = ty,
+            init = init,
+            fns = ind(&fns, 4),
+            stmt = ind(stmt, 4)
+        )
+    } else {
+        format!("x: {ty} = {init}\n\nflag := true\n\np := true\n\nq := false\n\n{fns}\nstart :: fn do\n{stmt}    print(x)\n    print(flag)\nend\n", ty = ty, init = init, fns = fns, stmt = ind(stmt, 4))
+    };
+    let expect = vec![expect_x.to_string(), "true".to_string()];
+    let what = format!("right-hand side {}, {} variable", names[form], if captured { "captured local" } else { "global" });
+    st.count("assign_target_programs");
+    let viol = |sig: &str, obs: String| Violation { signature: sig.to_string(), hazard: None, case: index, detail: J::obj().with("what", J::s(what.clone())).with("program", J::s(text.clone())).with("expected_prints", J::Arr(expect.iter().map(|e| J::s(e.clone())).collect())).with("observed", J::s(obs)) };
+    match sy::compile_files(&sy::one_file(&text), "main.sy", &sy::CompileOpts { fuel: Some(crate::rel::CAMPAIGN_FUEL), ..Default::default() }) {
+        sy::Compiled::Ok(b) => match lua::run_simple(&String::from_utf8_lossy(&b)) {
+            lua::Simple::Prints(p) if p == expect => {
+                st.count("assign_target_programs_as_expected");
+                st.nontrivial(hash64(text.as_bytes()));
+            }
+            lua::Simple::Prints(p) => st.violation(viol("target:written-before-the-right-hand-side-finished", format!("{:?}", p))),
+            other => st.violation(viol("target:run-failed", format!("{:?}", other).chars().take(300).collect())),
+        },
+        other => st.violation(viol("target:template-rejected", other.brief())),
+    }
+}
+
 /// Closure-capture family (C10): a closure reading a mutable variable is created in one of 7 expression
 /// positions (often right after another read of the same variable in the same expression), its body reads
 /// the variable in 4 forms, the variable is a local or a global and is changed afterwards by the creator
@@ -420,12 +520,20 @@ impl Check for Traced {
             corpus_case(index, st);
             return;
         }
+        if self.prop == "C01" && index < CORPUS_SLOTS + RESULT_SLOTS {
+            expression_result_case(index - CORPUS_SLOTS, st);
+            return;
+        }
         if self.prop == "C10" && index < HELD_SLOTS {
             held_value_case(index, st);
             return;
         }
         if self.prop == "C10" && index < HELD_SLOTS + CAPTURE_SLOTS {
             capture_case(index - HELD_SLOTS, st);
+            return;
+        }
+        if self.prop == "C10" && index < HELD_SLOTS + CAPTURE_SLOTS + TARGET_SLOTS {
+            assign_target_case(index - HELD_SLOTS - CAPTURE_SLOTS, st);
             return;
         }
         let mut rng = Rng::for_case(ctx.seed, self.prop, index);
